@@ -188,6 +188,27 @@ def run_case(cs):
                 os.utime(p, ns=(st.st_atime_ns, st.st_mtime_ns))
             affected["altered"].append(f)
             muts.append(f"{how} {f!r}")
+            if nested and rng.random() < 0.35:
+                # a new file in another history of the tree whose path inside *that* history reads like the altered
+                # file's path inside its own (root/clip.mov altered, root/A001/clip.mov new)
+                own = world.owner(f, ["."] + list(nested))
+                rel_in = f if own == "." else f[len(own) + 1 :]
+                others = [h2 for h2 in ["."] + list(nested) if h2 != own]
+                h2 = rng.choice(others)
+                tgt = rel_in if h2 == "." else h2 + "/" + rel_in
+                tp = os.path.join(root, tgt)
+                if not os.path.lexists(tp) and ignored(tgt) is False and world.owner(tgt, ["."] + list(nested)) == h2 and all(
+                    ignored(tgt.rsplit("/", k)[0]) is False for k in range(1, tgt.count("/") + 1)
+                ):
+                    try:
+                        os.makedirs(os.path.dirname(tp), exist_ok=True)
+                        with open(tp, "wb") as fh:
+                            fh.write(world.gen_bytes(rng))
+                        affected["added"].append(tgt)
+                        muts.append(f"add namesake {tgt!r}")
+                        cs.count("new_file_named_like_altered_file_of_other_history")
+                    except OSError:
+                        pass
         elif k == "removed":
             files = [f for f in rec_files if f not in affected["altered"] and f not in affected["removed"]]
             edirs = [x for x in rec_dirs if not os.listdir(os.path.join(root, x))]
